@@ -121,7 +121,11 @@ theorem batch_refines (c : Cfg) (hc : c.WF) (flap : FlapFn) (s : St) (tr : Track
   intro r fl
   obtain ⟨tmax, pts⟩ := b
   cases pts with
-  | nil => exact ⟨h, rfl⟩
+  | nil =>
+    have : batchStep c flap s { tmax := tmax, pts := [] } = (s, none) := by
+      simp [batchStep, show Gen.batchEmptyReturns = true from rfl]
+    show Rel c (batchStep c flap s { tmax := tmax, pts := [] }).1 _ ∧ (batchStep c flap s { tmax := tmax, pts := [] }).2 = _
+    rw [this]; exact ⟨h, rfl⟩
   | cons p1 rest =>
     -- levels of the points: model = spec
     have hf : ∀ p, determineLevel c p (currentLevel s) = specLevel c p tr.level := fun p => by
